@@ -31,6 +31,13 @@ func (p *vlPay) Clone() Payload {
 	return &q
 }
 
+// vlSlice describes a slice of a local byte buffer: root[lo:hi] with linear bounds.
+type vlSlice struct {
+	Root   types.Object
+	Lo, Hi *Lin
+	Size   int64 // length of the root buffer
+}
+
 type vlOutcome struct {
 	Lo, Hi int64
 	Total  *Lin
@@ -111,8 +118,86 @@ func (c *Ctx) varintLenModel(fd *ast.FuncDecl) *vlModel {
 		}
 		return Value{}, false
 	}
+	// sliceOf describes e (an identifier of a byte array / made buffer, or a slice of one) as root[lo:hi]
+	var sliceOf func(in *Interp, st *State, e ast.Expr) (vlSlice, bool)
+	sliceOf = func(in *Interp, st *State, e ast.Expr) (vlSlice, bool) {
+		e = stripParens(e)
+		switch e := e.(type) {
+		case *ast.Ident:
+			obj := c.objOf(e)
+			if v, has := st.Env[obj]; has && v.K == vTag && v.Tag == "bslice" {
+				return v.Data.(vlSlice), true
+			}
+			if arr, isArr := derefType(c.typeOf(e)).Underlying().(*types.Array); isArr {
+				return vlSlice{obj, linConst(0), linConst(arr.Len()), arr.Len()}, true
+			}
+			if v, has := st.Env[obj]; has && v.K == vTag && v.Tag == "buf" {
+				n := v.Data.(int64)
+				return vlSlice{obj, linConst(0), linConst(n), n}, true
+			}
+		case *ast.SliceExpr:
+			base, ok := sliceOf(in, st, e.X)
+			if !ok {
+				return vlSlice{}, false
+			}
+			lo, hi := base.Lo, base.Hi
+			if e.Low != nil {
+				vs := in.eval(st.clone(), e.Low)
+				if len(vs) != 1 {
+					return vlSlice{}, false
+				}
+				l, isL := vs[0].v.asLin()
+				if !isL {
+					return vlSlice{}, false
+				}
+				lo = base.Lo.add(l)
+			}
+			if e.High != nil {
+				vs := in.eval(st.clone(), e.High)
+				if len(vs) != 1 {
+					return vlSlice{}, false
+				}
+				l, isL := vs[0].v.asLin()
+				if !isL {
+					return vlSlice{}, false
+				}
+				hi = base.Lo.add(l)
+			}
+			return vlSlice{base.Root, lo, hi, base.Size}, true
+		}
+		return vlSlice{}, false
+	}
+	h.Slice = func(in *Interp, st *State, e *ast.SliceExpr, x Value, lo, hi *Value) (Value, bool) {
+		base, ok := sliceOf(in, st, e.X)
+		if !ok {
+			return Value{}, false
+		}
+		nlo, nhi := base.Lo, base.Hi
+		if lo != nil {
+			l, isL := lo.asLin()
+			if !isL {
+				return Value{}, false
+			}
+			nlo = base.Lo.add(l)
+		}
+		if hi != nil {
+			l, isL := hi.asLin()
+			if !isL {
+				return Value{}, false
+			}
+			nhi = base.Lo.add(l)
+		}
+		return tagV("bslice", vlSlice{base.Root, nlo, nhi, base.Size}), true
+	}
 	h.Index = func(in *Interp, st *State, e *ast.IndexExpr, x, idx Value) (Value, bool) {
 		p := st.P.(*vlPay)
+		if sl, ok := sliceOf(in, st, e.X); ok && p.firstBuf != nil && sl.Root == p.firstBuf && idx.K == vConst {
+			if k, ok := constant.Int64Val(idx.C); ok {
+				if off, isC := sl.Lo.isConst(); isC && off+k == 0 {
+					return linV(linSym("b0")), true
+				}
+			}
+		}
 		if id, ok := stripParens(e.X).(*ast.Ident); ok && p.firstBuf != nil && c.objOf(id) == p.firstBuf && idx.K == vConst {
 			if k, ok := constant.Int64Val(idx.C); ok && k == 0 {
 				return linV(linSym("b0")), true
@@ -208,43 +293,14 @@ func (c *Ctx) varintLenModel(fd *ast.FuncDecl) *vlModel {
 			}
 			return one(st, unknownV()), true
 		case "io.ReadFull":
-			se, ok := stripParens(call.Args[1]).(*ast.SliceExpr)
 			var bufObj types.Object
 			size := int64(-1)
-			lo, hi := linConst(0), (*Lin)(nil)
-			root := stripParens(call.Args[1])
-			if ok {
-				root = stripParens(se.X)
-			}
-			if id, isID := root.(*ast.Ident); isID {
-				bufObj = c.objOf(id)
-				if arr, isArr := derefType(c.typeOf(id)).Underlying().(*types.Array); isArr {
-					size = arr.Len()
-				} else if v, has := st.Env[bufObj]; has && v.K == vTag && v.Tag == "buf" {
-					size = v.Data.(int64)
-				}
-			}
-			if ok {
-				if se.Low != nil {
-					if vs := in.eval(st.clone(), se.Low); len(vs) == 1 {
-						if l, isL := vs[0].v.asLin(); isL {
-							lo = l
-						} else {
-							lo = nil
-						}
-					}
-				}
-				if se.High != nil {
-					if vs := in.eval(st.clone(), se.High); len(vs) == 1 {
-						if l, isL := vs[0].v.asLin(); isL {
-							hi = l
-						}
-					}
-				} else if size >= 0 {
-					hi = linConst(size)
-				}
-			} else if size >= 0 {
-				hi = linConst(size)
+			var lo, hi *Lin
+			if len(args) > 1 && args[1].K == vTag && args[1].Tag == "bslice" {
+				sl := args[1].Data.(vlSlice)
+				bufObj, lo, hi, size = sl.Root, sl.Lo, sl.Hi, sl.Size
+			} else if sl, ok := sliceOf(in, st, call.Args[1]); ok {
+				bufObj, lo, hi, size = sl.Root, sl.Lo, sl.Hi, sl.Size
 			}
 			if lo == nil || hi == nil {
 				p.problems = append(p.problems, c.pos(call.Pos())+": the number of bytes read is not a linear form of the first byte")
